@@ -63,6 +63,8 @@ AttrMatch(op, v0, n0, ci) ==
   CASE op = "exists" -> TRUE
     [] op = "="  -> v = n
     [] op = "~=" -> n # <<>> /\ (\A j \in 1..Len(n) : ~IsSpace(n[j])) /\ HasWord(v, n)
+    \* the class selector .n on the attribute `class`: n is one of its words
+    [] op = "class" -> HasWord(v, n)
     [] op = "|=" -> v = n \/ IsPre(n \o <<45>>, v)
     [] op = "^=" -> n # <<>> /\ IsPre(n, v)
     [] op = "$=" -> n # <<>> /\ IsSuf(n, v)
@@ -149,7 +151,14 @@ Chars(str) == CASE str = "" -> <<>> [] str = "ab" -> <<97, 98>> [] str = "AB" ->
                 [] str = "cd" -> <<99, 100>> [] str = "ab-cd" -> <<97, 98, 45, 99, 100>> [] str = "ab cd" -> <<97, 98, 32, 99, 100>>
                 [] str = " ab" -> <<32, 97, 98>> [] str = "a  b" -> <<97, 32, 32, 98>> [] str = "ab-" -> <<97, 98, 45>>
                 [] str = "cd ab" -> <<99, 100, 32, 97, 98>> [] str = "aB" -> <<97, 66>>
-AttrVals    == {"", "ab", "AB", "ab-cd", "ab cd", " ab", "a  b", "ab-", "cd ab", "aB"}
+                \* separators other than the space: TAB, LF, FF, CR separate words; VT, NBSP, EM SPACE do not (Selectors 4, 6.3.4:
+                \* "whitespace-separated" is the ASCII white space of HTML)
+                [] str = "ab<9>cd" -> <<97, 98, 9, 99, 100>> [] str = "ab<10>cd" -> <<97, 98, 10, 99, 100>>
+                [] str = "ab<12>cd" -> <<97, 98, 12, 99, 100>> [] str = "ab<13>cd" -> <<97, 98, 13, 99, 100>>
+                [] str = "ab<11>cd" -> <<97, 98, 11, 99, 100>> [] str = "ab<160>cd" -> <<97, 98, 160, 99, 100>>
+                [] str = "ab<8195>cd" -> <<97, 98, 8195, 99, 100>> [] str = "<160>ab" -> <<160, 97, 98>>
+AttrVals    == {"", "ab", "AB", "ab-cd", "ab cd", " ab", "a  b", "ab-", "cd ab", "aB",
+                "ab<9>cd", "ab<10>cd", "ab<12>cd", "ab<13>cd", "ab<11>cd", "ab<160>cd", "ab<8195>cd", "<160>ab"}
 AttrNeedles == {"", "ab", "AB", "b", "cd", "ab cd", "ab-"}
 AttrTree(v) == [n |-> 2, par |-> <<0, 1>>, kind |-> <<"elem", "elem">>, tag |-> <<"html", "p">>, cls |-> <<FALSE, FALSE>>,
                 id |-> <<FALSE, FALSE>>, hasattr |-> <<FALSE, v # "absent">>, attr |-> <<<<>>, IF v = "absent" THEN <<>> ELSE Chars(v)>>,
@@ -172,6 +181,7 @@ TreesOf(m) == UNION {{MkTree(m, pv, lb) : pv \in {f \in ParVecs(m) : \A x \in 2.
                      : lb \in {g \in [1..m -> Labels] : g[1] = L0}}
 TreesN(n) == UNION {TreesOf(m) : m \in 2..n}
 
+PathTrees == UNION {{MkTree(m, [x \in 1..m |-> x - 1], lb) : lb \in {g \in [1..m -> {l \in Labels : l.kind = "elem"}] : g[1] = L0}} : m \in 4..5}
 Compounds == {Cmp("p", FALSE, FALSE, <<>>), Cmp("q", FALSE, FALSE, <<>>), Cmp("*", TRUE, FALSE, <<>>),
               Cmp("*", FALSE, TRUE, <<>>), Cmp("*", FALSE, FALSE, <<>>), Cmp("p", TRUE, FALSE, <<>>)}
 Combs == {" ", ">", "+", "~"}
@@ -188,6 +198,10 @@ Scenarios ==
   CASE Family = "nth"  -> {[tree |-> TreeOfKids(ks), sel |-> <<One(Cmp("*", FALSE, FALSE, <<p>>))>>] : ks \in KidLists(Size), p \in NthSels}
     [] Family = "attr" -> {[tree |-> AttrTree(v), sel |-> <<One(Cmp("p", FALSE, FALSE, <<[n |-> "attr", op |-> op, val |-> Chars(nd), ci |-> ci]>>))>>] :
                               v \in AttrVals \cup {"absent"}, op \in {"exists", "=", "~=", "|=", "^=", "$=", "*="}, nd \in AttrNeedles, ci \in BOOLEAN}
+                          \cup {[tree |-> AttrTree(v), sel |-> <<One(Cmp("p", FALSE, FALSE, <<[n |-> "attr", op |-> "class", val |-> Chars(nd), ci |-> FALSE]>>))>>] :
+                              v \in AttrVals \cup {"absent"}, nd \in {"ab", "AB", "b", "cd", "ab-"}}
+    \* deep trees: paths of 4 and 5 nodes (descendants 3 and 4 levels below), the logical pseudo-classes and the descendant / child combinators
+    [] Family = "deep" -> {[tree |-> t, sel |-> <<s>>] : t \in PathTrees, s \in LogicSels \cup {c \in Complexes(2) : \A j \in 1..Len(c.comb) : c.comb[j] \in {" ", ">"}}}
     [] Family = "comb" -> {[tree |-> t, sel |-> <<s>>] : t \in TreesN(Size), s \in Complexes(Depth)}
     [] Family = "logic" -> {[tree |-> t, sel |-> <<s>>] : t \in TreesN(Size), s \in LogicSels}
     [] Family = "list" -> {[tree |-> t, sel |-> <<s1, s2>>] : t \in TreesN(Size), s1 \in Complexes(1), s2 \in Complexes(2)}
